@@ -646,14 +646,22 @@ func c04Display(c *Ctx) {
 			walkNoLit(f.Body, func(n ast.Node) bool {
 				if b, ok := n.(*ast.BinaryExpr); ok && (b.Op == token.EQL || b.Op == token.NEQ) {
 					l, rr := x.str(b.X), x.str(b.Y)
-					if (l == num && (rr == "conv:float64(conv:int("+num+"))" || rr == "conv:float64(conv:int64("+num+"))" || rr == "math.Trunc("+num+")")) || (rr == num && strings.HasPrefix(l, "conv:float64(conv:int")) {
+					// the guard must be the round trip through the very integer type that is printed: n == float64(T(n)) is
+					// false whenever T(n) does not hold n (beyond T's range, infinities, NaN), which a test of wholeness
+					// alone (math.Trunc) does not give
+					conv := "conv:int("
+					if strings.HasPrefix(s, "strconv.FormatInt(") {
+						conv = "conv:int64("
+					}
+					want := "conv:float64(" + conv + num + "))"
+					if (l == num && rr == want) || (rr == num && l == want) {
 						guard = b
 					}
 				}
 				return true
 			})
 			if guard == nil {
-				whyInt = "the integer branch is not guarded by n == float64(int(n))"
+				whyInt = "the integer branch is not guarded by the round trip n == float64(T(n)) through the integer type T that is printed: a whole number beyond T's range (or an infinity) would print as a wrapped integer"
 				continue
 			}
 			at := site{pos: r.Pos(), anc: r}
